@@ -299,8 +299,9 @@ def checkAll (P : Program) (obs : Obs) : List String × Nat :=
   let joinDiffs := obs.joins.flatMap fun j =>
     (if (joinChunkDefs (j.defs.map fieldsOf)).matches j.obsDefs then []
      else [mkDiff "chunk-defs" j.key "_chunk_defs" (joinChunkDefs (j.defs.map fieldsOf)) j.obsDefs]) ++
-    (if (joinChunkOuts j.outs).matches j.obsOuts then []
-     else [mkDiff "chunk-outs" j.key "_chunk_outs" (joinChunkOuts j.outs) j.obsOuts])
+    -- a join that was launched read every chunk's outs (`doJoinRead`: otherwise the fork fails)
+    (if (doJoinRead (j.outs.map some)).2 && (doJoinRead (j.outs.map some)).1.matches j.obsOuts then []
+     else [mkDiff "chunk-outs" j.key "_chunk_outs" (doJoinRead (j.outs.map some)).1 j.obsOuts])
   let topDiff := (diffRecord "top-outs" P.top.id
       ((fieldsOf d.1).filter fun kv => !obs.skip.contains kv.1)
       ((fieldsOf obs.top).filter fun kv => !obs.skip.contains kv.1)).toList
@@ -431,10 +432,10 @@ def staticReply (P : Program) (obs : Option Obs) : String :=
   let table := goForksTable fqid nodes []
   -- the hypotheses of the proved refinement (they speak about the flat static phase of
   -- Martian/ResolverStatic.lean: map calls of stages only)
-  let frag := noGuardList s.2 && Program.mapsOfStages P && wellTypedGB P && acyclicB P.table && staticProgramOk P fqid &&
+  let frag := callGraphAcyclicB P && noGuardList s.2 && Program.mapsOfStages P && wellTypedGB P && acyclicB P.table && staticProgramOk P fqid &&
     decide (((staticProgram P fqid).2.map fun n => fqid n.path).Nodup)
   -- … and of the refinement over the tree-shaped static phase (mapped pipelines, nested map calls)
-  let fragT := noGuardList s.2 && wellTypedTB P && acyclicB P.table &&
+  let fragT := callGraphAcyclicB P && noGuardList s.2 && wellTypedTB P && acyclicB P.table &&
     decide ((nodes.map fun n => fqid n.path).Nodup)
   let (denV, rtV) :=
     match obs with
@@ -513,16 +514,16 @@ def handle (op : String) (args : List String) : Option String :=
     pure (s!"{rt.base} {rt.mapDim} {rt.arrDim}\t" ++
       render (narrow ss (ss.length + 2) dty.ty (projPath ss ty.ty pth val)) ++ "\t" ++
       render (narrow ss (ss.length + 2) dty.ty (resolvePath ss ty.ty pth val)))
-  | "narrow", [st, t, v] => do
-    let ss ← match (← parseSX st) with
-      | .l (.a "structs" :: ss) => ss.mapM fun s =>
-          match s with
-          | .l (.a "s" :: .a n :: ps) => do pure (n, (← ps.mapM pParam))
-          | _ => none
+  | "joinread", [r] => do
+    -- r = (l R*) with R = u (unreadable) | JV : `doJoin`'s read of the chunk outs
+    let reads ← match (← parseSX r) with
+      | .l (.a "l" :: rs) => rs.mapM fun x =>
+          match x with
+          | .a "u" => some (none : Option J)
+          | y => (pJ y).map some
       | _ => none
-    let ty ← pParam (← parseSX t)
-    let val ← pJ (← parseSX v)
-    pure (render (narrow ss (ss.length + 2) ty.ty val))
+    let res := doJoinRead reads
+    pure (s!"launched={if res.2 then 1 else 0}\t" ++ render res.1)
   | _, _ => none
 
 end Driver.C01
